@@ -642,6 +642,14 @@ func (e *c03Env) exec(p *c03Prog, th *starlark.Thread, h *c03Holder, full bool) 
 
 func (e *c03Env) execFresh(p *c03Prog, full bool) c03Obs {
 	h := &c03Holder{}
+	if os.Getenv("C03_TIMING") != "" {
+		t0 := gotime.Now()
+		o := e.exec(p, e.newThread(h), h, full)
+		if d := gotime.Since(t0); d > 20*gotime.Millisecond {
+			fmt.Fprintf(os.Stderr, "c03: program %d took %v (%d steps)\n", p.ID, d, o.Steps)
+		}
+		return o
+	}
 	return e.exec(p, e.newThread(h), h, full)
 }
 
